@@ -24,7 +24,7 @@ static const Opt OPTS[] = {
     {"CutoffFreq", 'f', "23e9", "0", "1.2345678e10"}, {"AcceleratingVoltage", 'd', "1e6", "1.5e6", "123456.789012"}, {"LinearRF", 'b', "1", "0", "0"},
     {"RFAmplitudeSpread", 'd', "0", "1e-4", "0.00012345678901"}, {"RFPhaseSpread", 'd', "0", "0.1", "0.0123456789"},
     {"RFPhaseModAmplitude", 'd', "0", "1", "0.2345678901"}, {"RFPhaseModFrequency", 'd', "0", "4e4", "12345.678901"},
-    {"cldev", 'i', "0", "1", "2"}, {"output", 's', "", "out.h5", "dir/res.hdf5"}, {"outstep", 'u', "100", "7", "1"}, {"SavePhaseSpace", 'u', "0", "2", "4000000000"},
+    {"cldev", 'i', "0", "1", "-1"}, {"output", 's', "", "out.h5", "dir/res.hdf5"}, {"outstep", 'u', "100", "7", "1"}, {"SavePhaseSpace", 'u', "0", "2", "4000000000"},
     {"tracking", 's', "", "t.txt", "p/q=1 b.txt"}, {"verbose", 'b', "0", "1", "1"},
     {"StepsPerTs", 'u', "1000", "64", "4001"}, {"StepsPerRevolution", 'd', "0", "0.5", "0.3141592653"}, {"padding", 'd', "8", "2", "1.5000001"}, {"RoundPadding", 'b', "1", "0", "0"},
     {"PhaseSpaceSize", 'f', "12", "10", "14.567891"}, {"PhaseSpaceShiftX", 'f', "0", "2", "-1.2345678"}, {"PhaseSpaceShiftY", 'f', "0", "-3", "0.7654321"},
